@@ -25,7 +25,12 @@ from harness.core import enc_str
 
 PROPERTY = "C04"
 READY = True
-THEOREMS = []
+THEOREMS = [
+    "C04.bases_std", "C04.tok_adjacent", "C04.tok_line_start", "C04.tok_monotone", "C04.tok_orig_text",
+    "C04.orig_text_exact", "C04.node_span", "C04.lex_error_line", "C04.tok_cover", "C04.end_token",
+    "C04.node_orig_text", "C04.lex_error_first", "C04.lex_error_complete", "C04.no_out_of_fuel",
+    "C04.ex_reIn", "C04.ex_tokens",
+]
 RULE = ("distinct by protocol text; non-trivial = the text has at least two tokens besides $END$, or a lexical "
         "error, or more than one line")
 TRUSTED = ["library `re` (its answers enter the model as a table computed by the harness)",
@@ -107,6 +112,8 @@ GRAMMARS = [
     {"E": [("A", "E"), ()], "A": [("W", "N", "S"), ("W", "N"), ("W", "S")]},
     {"E": [("ST", "E"), ()], "ST": [("W", "ARGS", "S"), ("N", "S")], "ARGS": [("N", "ARGS"), ()]},
     {"E": [("P", "B", "Q")], "P": [("N",), ()], "B": [("W", "P", "B"), ()], "Q": [("S", "Q"), ("S",), ()]},
+    # an inner node all of whose children are empty (X), in the middle and at the end
+    {"E": [("W", "X", "R")], "X": [("P", "Q")], "P": [("N",), ()], "Q": [("S",), ()], "R": [("W", "X"), ()]},
 ]
 
 
@@ -604,6 +611,23 @@ def oracle(case, replies):
         res[smart] = (_shape(root), spans)
     if len(res) == 2 and res[0][0] == res[1][0] and res[0][1] != res[1][1]:
         return "node-smart: spans depend on smart_factorization"
+    # the default mode (do_cleanup=True) renames / squashes nodes but every node it keeps is a node of the raw
+    # tree: its span must be one of the raw spans, the root's span the raw root's span
+    if 1 in res:
+        try:
+            root = _parser(p["cfg"], gi, 1).parse(text, src_name="t")
+        except ll.ParsingError:
+            return "node-cleanup: parse fails with do_cleanup=True only"
+        raw = set(res[1][1])
+        if root.span != res[1][1][0]:
+            return "node-cleanup: the cleaned root spans %s, the raw root %s" % (root.span, res[1][1][0])
+        todo = [root]
+        while todo:
+            e = todo.pop()
+            if e.span not in raw:
+                return "node-cleanup: cleaned node %s carries span %s that no node of the raw tree has" % (e.name, e.span)
+            if not e.is_leaf():
+                todo.extend(e.value)
     return None
 
 
@@ -688,6 +712,8 @@ def _gen_gots(rng, lines, n):
 
 def gen_cases(rng, tier):
     n = 2600 if tier == "quick" else 60000
+    if tier != "quick":
+        yield from search_cases(rng, tier)          # exhaustive small scopes
     for _ in range(n):
         ci = rng.randrange(len(CONFIGS))
         cfg = CONFIGS[ci]
